@@ -176,12 +176,30 @@ def message_cells():
     return [(v, m) for v in T.VERSIONS for m in T.messages(v) if G.usable(v, m)]
 
 
+def nested_single_group_names():
+    """structure names in which a group that cannot be repeated sits inside a repeatable group: a recurring member of the
+    inner group has to open a new repetition of the OUTER one (the cascade is the part of the group finder that broke twice)"""
+    out = set()
+    for v, m in message_cells():
+        def rec(ref):
+            for n, r, (mn, mx), kind in T.struct_children(ref):
+                if kind == 'GRP':
+                    a = G.anchor_index(v, r)
+                    if mx != 1 and a is not None and G.children(r)[a][3] == 'GRP':
+                        out.add(m)      # a repeatable group recognised by a member of a nested single group
+                    rec(r)
+        rec(T.message_ref(v, m))
+    return sorted(out)
+
+
 def plan(tier, seed):
     import random
     names = sorted(set(m for v, m in message_cells()))
     rnd = random.Random(seed)
     if tier == 'quick':
-        sample = rnd.sample(names, 32)
+        special = nested_single_group_names()
+        sample = rnd.sample(special, min(len(special), 12)) + rnd.sample([n for n in names if n not in special], 20)
+        rnd.shuffle(sample)
         return [{'names': sample[i::16], 'seed': seed * 1000 + i, 'n': 4, 'shrink': False} for i in range(16)]
     rnd.shuffle(names)
     return [{'names': names[i::64], 'seed': seed * 1000 + i, 'n': 8, 'shrink': True, 'both_orders': True} for i in range(64)]
